@@ -564,8 +564,17 @@ def _g_slice(S, W):
 
 
 _m('slice', lambda pt, a: a['self'].slice(a['start'], a['stop'], inplace=False), gen=_g_slice, weight=2)
-_m('shift', lambda pt, a: a['self'].shift(a['n'], inplace=False),
-   gen=lambda S, W: ok({'self': H(W, S, 'ann'), 'n': V(S.randint(-30, 30))}))
+def _g_mshift(S, W):
+    # a quarter of the shifts are whole turns (0, +-length, twice the length): nothing moves - and what comes back
+    # must still be a peptide of its own
+    s = H(W, S, 'ann')
+    if s is None:
+        return None
+    n = seqlen(W, s)
+    return ok({'self': s, 'n': V(S.pick([0, n, -n, 2 * n]) if S.coin(0.25) else S.randint(-30, 30))})
+
+
+_m('shift', lambda pt, a: a['self'].shift(a['n'], inplace=False), gen=_g_mshift)
 _m('shuffle_seeded', lambda pt, a: a['self'].shuffle(a['seed'], inplace=False),
    gen=lambda S, W: ok({'self': H(W, S, 'ann'), 'seed': V(S.randint(0, 50))}), weight=1.5)
 _m('reverse', lambda pt, a: a['self'].reverse(inplace=False, swap_terms=a['swap_terms']),
